@@ -1,0 +1,12 @@
+//go:build verif
+
+// Verification hooks (build tag "verif" only; add-only; nothing here is compiled into normal builds).
+package standard
+
+// VerifC20BeaconBlockRootsLen is the number of slots for which a beacon block root is held.
+func (s *Service) VerifC20BeaconBlockRootsLen() int {
+	s.beaconBlockRootsMu.Lock()
+	defer s.beaconBlockRootsMu.Unlock()
+
+	return len(s.beaconBlockRoots)
+}
